@@ -721,7 +721,7 @@ type stubClientFactory struct {
 	inWork *int
 }
 
-func (f *stubClientFactory) Transport() base.Transport       { return stubTransport{} }
+func (f *stubClientFactory) Transport() base.Transport { return stubTransport{} }
 func (f *stubClientFactory) ParseArgs(*pt.Args) (any, error) {
 	if f.argsFail {
 		return nil, fmt.Errorf("stub: invalid bridge arguments")
